@@ -86,6 +86,17 @@ CHECKS = {
   note="How GDAL exposes masks (alpha honoured only for 1/3-band Byte/UInt16 + alpha) is GDAL's rule; WarpedVRT mask handling "
        "is not modelled.",
   tech="Lean 4 proof (case analysis, list congruence) + bit-identity differential runs across encodings", ref='7 C08'),
+ 'C10': dict(
+  text="Proof (Lean 4) over a file-system machine (finite map path -> content; process = both existence checks, then both opens "
+       "for writing, then content that depends on inputs+configuration only): without overwrite an existing output means "
+       "FileExistsError and an unchanged file system; paths other than the two outputs are untouched by every call and every "
+       "history; no other files appear; a successful call leaves exactly its configuration's content; after any history the "
+       "outputs equal those of the same call on an empty directory (8 theorems). Tied to the code by histories of 1-4 calls (one "
+       "object / fresh objects / CLI / mixed; str and Path; overwrite on/off; with/without parameter image; pre-existing garbage "
+       "or older outputs): outcomes and listings vs the machine, bytes+mtime of untouched files, decoded outputs vs fresh runs.",
+  note="GDAL side-car files (.aux.xml, .msk, .ovr) are whitelisted. Content identity is the decoded raster (pixels, masks, "
+       "tags, descriptions), not the compressed bytes.",
+  tech="Lean 4 proof (invariants over call histories of a state machine) + differential history runs", ref='7 C10'),
  'C11': dict(
   text="Proof (Lean 4) over exact rationals: block sums are additive over any split of the pixels, accumulating the blocks of any "
        "partition gives the whole-image sums, in any completion order (sums_additive_over_partition, fold_perm); N = number of "
@@ -128,6 +139,17 @@ CHECKS = {
   note="The value content of the parameter bands is C01/C05's; degenerate windows are excluded from the mask comparison "
        "(gain-offset skipped there).",
   tech="Lean 4 proof (Nat division/modulo arithmetic, list computation) + bit-identity differential runs", ref='7 C14'),
+ 'C15': dict(
+  text="Proof (Lean 4), interim set: the relative-distance test is exactly the 10 % test (relDist_le_iff), bands without "
+       "wavelength never take part in wavelength matching, numpy any() truthiness of NaN (3 theorems; the full set - equal "
+       "lengths, source order, one-to-one, within tolerance incl. file-order fallback, no silent drop, nearest-band optimality - "
+       "is stated in DESIGN.md and is being proved against the same model). Tied to the code by 2000 (quick) / 50000 (thorough) "
+       "generated band-metadata configurations run through the real MatchedPairReader._match_pair_bands (stub datasets) and a "
+       "sample through real files and RasterFuse: matched band lists or error kind equal to the model's (`match`), plus the "
+       "property's soundness predicates evaluated directly on the code's answer.",
+  note="Wavelengths are dyadic rationals so that float and rational comparisons agree; the tolerance is the exact rational of "
+       "the double 0.1. A source wavelength of 0 (inf distance) is outside the model.",
+  tech="Lean 4 executable model + (partial) proofs; exhaustive-style differential run against the real matcher", ref='7 C15'),
  'C16': dict(
   text="Proof (Lean 4): the repaired covers_bounds predicate accepts iff the source footprint is contained in the reference "
        "footprint on each axis (covers_iff_contains), overhang on any side by any amount is rejected, the same grid is accepted, "
